@@ -10,6 +10,7 @@ import (
 	"go.nanomsg.org/mangos/v3"
 	"go.nanomsg.org/mangos/v3/protocol/surveyor"
 	"go.nanomsg.org/mangos/v3/protocol/xsurveyor"
+	"go.nanomsg.org/mangos/v3/vh/c08"
 	"go.nanomsg.org/mangos/v3/vh/kit"
 	"go.nanomsg.org/mangos/v3/vh/vt"
 	"go.nanomsg.org/mangos/v3/vz/vexplore"
@@ -27,13 +28,14 @@ func init() {
 		}
 		return []*vexplore.Scenario{
 			{Name: fmt.Sprintf("surveyor-hist-D%d", d), Mode: "hist", Reset: kit.ResetGlobals, Body: func() { hist(d) },
-				NeedCounters: []string{"response-delivered", "stale-discarded", "foreign-to-other-ctx", "expired-protostate", "canceled-by-new-survey", "broadcast-complete", "late-response-discarded"}},
+				NeedCounters: []string{"response-delivered", "stale-discarded", "foreign-to-other-ctx", "expired-protostate", "canceled-by-new-survey", "broadcast-complete", "late-response-discarded", "survey-time-set-during-survey", "survey-under-changed-time"}},
 			{Name: "surveyor-sched-expiry-vs-response", Mode: "sched", Bound: b, Reset: kit.ResetGlobals, Cfg: vsched.Config{EarlyTimers: true}, Body: schedExpiry},
 			{Name: "surveyor-sched-newsurvey-vs-response", Mode: "sched", Bound: b, Reset: kit.ResetGlobals, Body: schedNewSurvey},
 			{Name: fmt.Sprintf("surveyor-unlimited-survey-time-hist-D%d", d-1), Mode: "hist", Reset: kit.ResetGlobals, Body: func() { survTime = 0; defer func() { survTime = time.Second }(); hist(d - 1) },
 				NeedCounters: []string{"canceled-by-new-survey", "stale-discarded"}},
 			{Name: "surveyor-slow-respondent-survey-sequence", Mode: "enum", Reset: kit.ResetGlobals, Body: slowRespondent, NeedCounters: []string{"queued-surveys-intact"}},
 			{Name: "surveyor-shared-message-two-contexts", Mode: "sched", Bound: b, Reset: kit.ResetGlobals, Body: schedSharedMessage},
+			{Name: "xsurveyor-slow-respondent-and-the-two-queue-lengths", Mode: "enum", Reset: kit.ResetGlobals, Body: func() { c08.QueueLengths("xsurveyor", xsurveyor.NewSocket, []byte{0x80, 0, 0, 1}, 4) }, NeedCounters: []string{"slow-peer-given-all-queued"}},
 			{Name: "xsurveyor-hist", Mode: "hist", Reset: kit.ResetGlobals, Body: func() { rawHist(4) }},
 		}
 	})
@@ -51,6 +53,21 @@ type mctx struct {
 	recv   *kit.Call
 	closed bool
 	why    error // what a pending Recv must fail with once the survey is gone
+	stime  time.Duration // the survey time in effect for the next survey (0: survTime)
+}
+
+func (m *mctx) setOption(name string, v interface{}) error {
+	if m.c != nil {
+		return m.c.SetOption(name, v)
+	}
+	return m.s.SetOption(name, v)
+}
+
+func (m *mctx) getOption(name string) (interface{}, error) {
+	if m.c != nil {
+		return m.c.GetOption(name)
+	}
+	return m.s.GetOption(name)
 }
 
 func (m *mctx) send(b []byte) error {
@@ -78,6 +95,9 @@ type world struct {
 // setupWriteQ, when positive, is the WriteQLen set before the respondents connect.
 var setupWriteQ int
 
+// setupReadQ, when positive, is the ReadQLen set before the respondents connect.
+var setupReadQ int
+
 func setup() *world {
 	w := &world{}
 	s, err := surveyor.NewSocket()
@@ -91,6 +111,11 @@ func setup() *world {
 	if setupWriteQ > 0 {
 		if err := s.SetOption(mangos.OptionWriteQLen, setupWriteQ); err != nil {
 			kit.Failf("setup", "WriteQLen: %s", kit.ErrName(err))
+		}
+	}
+	if setupReadQ > 0 {
+		if err := s.SetOption(mangos.OptionReadQLen, setupReadQ); err != nil {
+			kit.Failf("setup", "ReadQLen: %s", kit.ErrName(err))
 		}
 	}
 	ep := vt.Get("surv")
@@ -165,6 +190,32 @@ func (w *world) events() []kit.Event {
 	if b.cur != 0 {
 		evs = append(evs, kit.Event{Name: "respond:p0:cur-ctx1", Run: func() { w.respond(0, b.cur, "cur-ctx1") }})
 	}
+	if survTime > 0 {
+		// the survey time is changed, possibly while a survey is outstanding: that survey keeps the
+		// time it was started with, the next one runs for the new time
+		for _, m := range w.ctxs {
+			m := m
+			if m.closed {
+				continue
+			}
+			evs = append(evs, kit.Event{Name: "survey-time:" + m.name, Run: func() {
+				nt := survTime / 2
+				if m.stime == nt {
+					nt = survTime
+				}
+				if err := m.setOption(mangos.OptionSurveyTime, nt); err != nil {
+					kit.Failf("survey-time-set", "%s: SetOption(SurveyTime, %v): %s", m.name, nt, kit.ErrName(err))
+				}
+				if v, err := m.getOption(mangos.OptionSurveyTime); err != nil || v.(time.Duration) != nt {
+					kit.Failf("survey-time-get", "%s: SurveyTime set to %v (survey outstanding: %v), GetOption answers %v (%s)", m.name, nt, m.active, v, kit.ErrName(err))
+				}
+				m.stime = nt
+				if m.active {
+					kit.Count("survey-time-set-during-survey")
+				}
+			}})
+		}
+	}
 	evs = append(evs, kit.Event{Name: "advance:T", Run: func() { kit.Sleep(survTime) }})
 	evs = append(evs, kit.Event{Name: "advance:T/2", Run: func() { kit.Sleep(survTime / 2) }})
 	if !b.closed {
@@ -224,6 +275,10 @@ func (w *world) doSurvey(m *mctx) {
 	m.cur = id
 	m.active = true
 	m.expiry = kit.Now() + survTime
+	if m.stime > 0 {
+		m.expiry = kit.Now() + m.stime
+		kit.Count("survey-under-changed-time")
+	}
 	if survTime == 0 {
 		m.expiry = 1 << 62 // never
 	}
@@ -392,8 +447,13 @@ func schedNewSurvey() {
 // survey under its own id with its own body (a queued survey is not rewritten by a later one), and
 // an answer to an earlier id is not delivered as an answer to the current survey.
 func slowRespondent() {
-	setupWriteQ = kit.ChooseFree(2) // 0: default queue (holds everything), 1: a queue of one survey
-	defer func() { setupWriteQ = 0 }()
+	// 0: default queue (holds everything), 1: a queue of one survey, 2: a send queue of 8 surveys
+	// beside a receive queue of one answer (the two lengths are separate options)
+	setupWriteQ = []int{0, 1, 8}[kit.ChooseFree(3)]
+	if setupWriteQ == 8 {
+		setupReadQ = 1
+	}
+	defer func() { setupWriteQ, setupReadQ = 0, 0 }()
 	short := setupWriteQ == 1
 	w := setup()
 	who := kit.ChooseFree(2)
